@@ -702,7 +702,7 @@ pub fn run(tier: &str) -> i32 {
     if !quick {
         add("writer 2 tasks x 3 calls, append/batch/get/info", false, None, product(&[Call::Append(0), Call::Batch(0), Call::Get(INIT_BLOCKS), Call::Info], 2, 3));
         add("writer 4 tasks x 1 call", false, Some(6), product(&[Call::Append(0), Call::Batch(0), Call::Get(INIT_BLOCKS), Call::Info, Call::Prove(0)], 4, 1));
-        add("replica 2 tasks x 3 calls", true, None, product(&[Call::Apply(1), Call::Apply(2), Call::Apply(3), Call::Get(0), Call::Info], 2, 3));
+        add("replica 2 tasks x 3 calls", true, Some(4), product(&[Call::Apply(1), Call::Apply(2), Call::Apply(3), Call::Get(0), Call::Info], 2, 3));
         add("replica 4 tasks x 1 call", true, Some(6), product(&rmenu[..6], 4, 1));
     }
     let cap: u64 = if quick { 250_000 } else { 3_000_000 };
